@@ -35,6 +35,8 @@ const (
 	kSeqOptRef  // ( 'a'? R )
 	kPlusNRef   // ( N R )+      N <- 'n'?  is a fixed nullable rule
 	kStarLitRef // ( 'a' R )*
+	kChoicePredRef  // ( !'x' / R )        a nullable alternative that can fail, then the reference
+	kChoicePredNRef // ( !'x' / N R 'y' )  the same with a nullable rule in front of the reference
 	kNumRefKinds
 )
 
@@ -143,6 +145,16 @@ func c07Make(d c07Desc) ast.Expression {
 		e := ast.NewZeroOrMoreExpr(p)
 		e.Expr = c07Seq(lit("a"), r)
 		return e
+	case kChoicePredRef, kChoicePredNRef:
+		n := ast.NewNotExpr(p)
+		n.Expr = lit("x")
+		e := ast.NewChoiceExpr(p)
+		if d.kind == kChoicePredRef {
+			e.Alternatives = []ast.Expression{n, r}
+		} else {
+			e.Alternatives = []ast.Expression{n, c07Seq(c07Ref("N"), r, lit("y"))}
+		}
+		return e
 	}
 	panic("c07Make: bad kind")
 }
@@ -186,7 +198,7 @@ func reflrSlotNullable(d c07Desc, ruleNull []bool) bool {
 	switch d.kind {
 	case kLitA, kAny:
 		return false
-	case kEmpty, kPred, kAnd, kNot, kOpt, kStar, kStarLitRef:
+	case kEmpty, kPred, kAnd, kNot, kOpt, kStar, kStarLitRef, kChoicePredRef, kChoicePredNRef:
 		return true
 	case kRef, kLabel, kAct, kPlus, kChoiceFirst, kChoiceSecond, kRecover, kSeqOptRef:
 		return ruleNull[d.ref]
